@@ -117,6 +117,8 @@ class C11(Prop):
             if not r["delivered"] or r["status"] != 200:
                 res.append(("inject:message-not-delivered", "status %s" % r["status"], rp))
                 continue
+            if r.get("type") != r.get("sent_type", 1):
+                res.append(("inject:message-type-changed", "a %s message reached the backend as a %s message" % ({1: "text", 2: "binary"}.get(r.get("sent_type", 1)), {1: "text", 2: "binary"}.get(r.get("type"), r.get("type"))), dict(rp, sent_type=r.get("sent_type", 1), received_type=r.get("type"))))
             try:
                 sent = parse_exact(r["sent"])
             except ValueError:
